@@ -88,7 +88,7 @@ func findHarnesses(id string) ([]harnessRef, error) {
 			if m == nil || m[1] != id {
 				continue
 			}
-			if fd.Type.Params.NumFields() != 0 {
+			if fd.Type.Params.NumFields() != 0 || (fd.Type.Results != nil && fd.Type.Results.NumFields() != 0) {
 				continue
 			}
 			hr := harnessRef{dir: rel, fn: fd.Name.Name}
